@@ -58,7 +58,8 @@ Lemma d2R_shape d : in64 d -> d_exp d <> 2047 -> (d_exp d <> 0 \/ d_frac d <> 0)
     1 <= zlen eb <= 3 /\ bytes_ok eb /\ minimal_twos eb = true /\
     twos_value eb = ilogb d - 52 + t /\
     bytes_ok mant /\ mant <> [] /\ 0 <= t /\
-    be_val mant * 2 ^ t = two52 + d_frac d /\ be_val mant mod 2 = 1.
+    be_val mant * 2 ^ t = two52 + d_frac d /\ be_val mant mod 2 = 1 /\
+    (hd 0 mant <> 0 <-> t mod 8 <= 4).
 Proof.
   intros Hd He Hnz.
   pose proof (ilogb_nonspecial d Hd He Hnz) as Hil.
@@ -97,6 +98,10 @@ Proof.
   assert (Hoks : bytes_ok (init ++ [mval])).
   { apply bytes_ok_app. split; [exact Hinit|]. constructor; [exact Hmvb|constructor]. }
   pose proof (be_val_bound init Hinit) as HBi.
+  assert (Hhead : exists rest', init ++ [mval] = h :: rest').
+  { destruct init as [|a init']; cbn [app] in Hdec |- *; injection Hdec as Ha _; subst; eexists; reflexivity. }
+  destruct Hhead as (rest' & Hhead).
+  assert (Hh32 : 16 <= h < 32) by (unfold h; Z.div_mod_to_equations; lia).
   assert (Hmb : negb (mval =? 0) = true) by lia. rewrite Hmb. cbn [andb].
   destruct (mval mod 2 =? 0) eqn:Epar.
   - (* even last byte: make-odd shift *)
@@ -120,12 +125,25 @@ Proof.
       pose proof (Z.div_mod mval (2 ^ sc) ltac:(lia)) as Hdm. rewrite Hm0 in Hdm. lia. }
     assert (HKd : K / 2 ^ sc = be_val init * 2 ^ (8 - sc) + mval / 2 ^ sc).
     { rewrite HKq at 1. apply Z.div_mul. lia. }
-    split.
+    split; [|split].
     + rewrite Z.pow_add_r by lia. rewrite <- HK. rewrite HKq at 2. rewrite HKd. ring.
     + rewrite HKd.
       replace (2 ^ (8 - sc)) with (2 ^ (7 - sc) * 2).
       2:{ replace (8 - sc) with (7 - sc + 1) by lia. rewrite Z.pow_add_r by lia. reflexivity. }
       rewrite Z.mul_assoc, Z.add_comm, Z.mod_add by lia. exact Hm1.
+    + replace ((8 * zlen zs + sc) mod 8) with sc by (Z.div_mod_to_equations; lia).
+      rewrite Hhead. cbn [shr_bytes hd]. rewrite Z.lor_0_l.
+      assert (Hp4 : sc <= 4 -> 2 ^ sc <= 2 ^ 4) by (intros; apply Z.pow_le_mono_r; lia).
+      assert (Hp5 : 5 <= sc -> 2 ^ 5 <= 2 ^ sc) by (intros; apply Z.pow_le_mono_r; lia).
+      change (2 ^ 4) with 16 in Hp4. change (2 ^ 5) with 32 in Hp5.
+      assert (Hq : 0 <= h / 2 ^ sc < 256).
+      { split; [apply Z.div_pos; lia|]. apply Z.div_lt_upper_bound; nia. }
+      rewrite Z.mod_small by exact Hq.
+      split; intros Hx.
+      * destruct (Z.le_gt_cases sc 4) as [|Hgt]; [assumption|].
+        exfalso. apply Hx. apply Z.div_small. lia.
+      * assert (1 <= h / 2 ^ sc); [|lia].
+        apply Z.div_le_lower_bound; lia.
   - (* odd last byte *)
     destruct (exp_octets_spec (128 + 64 * d_sign d)
                 (ilogb d - (8 * (zlen init + 1) - 4)) ltac:(lia))
@@ -136,9 +154,12 @@ Proof.
     split; [rewrite Htw; lia|]. split; [exact Hoks|].
     split. { intros C. apply app_eq_nil in C. destruct C; discriminate. }
     split; [lia|]. rewrite HKsnoc. split; [exact HK|].
-    unfold K. rewrite Z.add_comm.
-    replace (be_val init * 256) with (be_val init * 128 * 2) by ring.
-    rewrite Z.mod_add by lia. Z.div_mod_to_equations. lia.
+    split.
+    + unfold K. rewrite Z.add_comm.
+      replace (be_val init * 256) with (be_val init * 128 * 2) by ring.
+      rewrite Z.mod_add by lia. Z.div_mod_to_equations. lia.
+    + rewrite Hhead. cbn [hd].
+      replace ((8 * zlen zs) mod 8) with 0 by (Z.div_mod_to_equations; lia). lia.
 Qed.
 
 (* ================================================================ *)
@@ -216,4 +237,131 @@ Proof.
   2:{ unfold twos_value. cbn [be_val]. rewrite pow256_zlen_cons.
       destruct (128 <=? e0); ring. }
   reflexivity.
+Qed.
+
+(* ================================================================ *)
+(* 4. ldexp on the written triple                                    *)
+
+Lemma pow2_pos t : 0 <= t -> 0 < 2 ^ t.
+Proof. intros. apply Z.pow_pos_nonneg; lia. Qed.
+
+Lemma triple_log2 N t f : 0 <= f < two52 -> 0 <= t -> N * 2 ^ t = two52 + f ->
+  t <= 52 /\ 0 < N < two53 /\ Z.log2 N = 52 - t.
+Proof.
+  intros Hf Ht HN. pose proof (pow2_pos t Ht) as HP.
+  assert (HNpos : 0 < N) by (unfold two52 in *; nia).
+  assert (Ht52 : t <= 52).
+  { destruct (Z.le_gt_cases t 52) as [|Hgt]; [assumption|exfalso].
+    assert (2 ^ 53 <= 2 ^ t) by (apply Z.pow_le_mono_r; lia).
+    change (2 ^ 53) with two53 in H. unfold two52, two53 in *. nia. }
+  assert (Hsplit : 2 ^ (52 - t) * 2 ^ t = two52).
+  { rewrite <- Z.pow_add_r by lia. replace (52 - t + t) with 52 by lia. reflexivity. }
+  pose proof (pow2_pos (52 - t) ltac:(lia)) as HQ.
+  split; [exact Ht52|]. split; [unfold two52, two53 in *; nia|].
+  apply Z.log2_unique; [lia|].
+  replace (52 - t + 1) with (Z.succ (52 - t)) by lia. rewrite Z.pow_succ_r by lia.
+  unfold two52 in *. nia.
+Qed.
+
+Lemma ldexp_bits_exact N t e f :
+  1 <= e <= 2046 -> 0 <= f < two52 -> 0 <= t -> N * 2 ^ t = two52 + f ->
+  ldexp_bits N (e - 1023 - 52 + t) = Some (e * two52 + f).
+Proof.
+  intros He Hf Ht HN.
+  destruct (triple_log2 N t f Hf Ht HN) as (Ht52 & HNr & Hlog).
+  unfold ldexp_bits. cbv zeta. rewrite Hlog.
+  replace (N =? 0) with false by lia.
+  replace (1024 <=? 52 - t + (e - 1023 - 52 + t)) with false by lia.
+  replace (-1022 <=? 52 - t + (e - 1023 - 52 + t)) with true by lia.
+  replace (52 - t <=? 52) with true by lia.
+  replace (52 - (52 - t)) with t by lia. rewrite HN. f_equal. lia.
+Qed.
+
+(* ================================================================ *)
+(* 5. theorems                                                       *)
+
+Definition normal (d : Z) : Prop := in64 d /\ 1 <= d_exp d <= 2046.
+Definition subnormal (d : Z) : Prop := in64 d /\ d_exp d = 0 /\ d_frac d <> 0.
+
+Lemma ilogb_normal d : 1 <= d_exp d <= 2046 -> ilogb d = d_exp d - 1023.
+Proof.
+  intros H. unfold ilogb.
+  replace (d_exp d =? 2047) with false by lia. replace (d_exp d =? 0) with false by lia.
+  reflexivity.
+Qed.
+
+(* (a) every normal double comes back bit for bit *)
+Theorem real_roundtrip_normal d : normal d -> REAL2double (double2REAL d) = ROk d.
+Proof.
+  intros (Hd & He).
+  destruct (d_fields d Hd) as (Hs & _ & Hf & Hmk).
+  destruct (d2R_shape d Hd ltac:(lia) ltac:(lia))
+    as (eb & mant & t & Henc & Hlen & Hok_eb & _ & Htw & Hok_m & _ & Ht & HN & _).
+  destruct (triple_log2 _ t _ Hf Ht HN) as (_ & HNr & _).
+  rewrite Henc, R2d_binary by (try assumption; lia).
+  rewrite Htw, ilogb_normal by exact He.
+  rewrite (ldexp_bits_exact _ t (d_exp d) (d_frac d)) by assumption.
+  f_equal. rewrite Hmk at 4. unfold mk_double. ring.
+Qed.
+
+(* zeros and infinities of both signs: closed terms *)
+Theorem real_roundtrip_specials :
+  REAL2double (double2REAL 0) = ROk 0 /\
+  REAL2double (double2REAL neg_zero_bits) = ROk neg_zero_bits /\
+  REAL2double (double2REAL pos_inf_bits) = ROk pos_inf_bits /\
+  REAL2double (double2REAL neg_inf_bits) = ROk neg_inf_bits /\
+  double2REAL 0 = [] /\ double2REAL neg_zero_bits = [67] /\
+  double2REAL pos_inf_bits = [64] /\ double2REAL neg_inf_bits = [65].
+Proof. vm_compute. repeat split; reflexivity. Qed.
+
+(* every NaN bit pattern is stored as NOT-A-NUMBER and read back as a NaN *)
+Theorem real_roundtrip_nan d : in64 d -> is_nan d = true ->
+  double2REAL d = [66] /\ REAL2double (double2REAL d) = RNaN.
+Proof.
+  intros Hd Hn.
+  assert (H : double2REAL d = [66]).
+  { unfold double2REAL. cbv zeta. unfold ilogb. unfold is_nan in *.
+    replace (d_exp d =? 2047) with true by lia.
+    replace (d_frac d =? 0) with false by lia.
+    replace ((- INT_MAX - 1 <=? - INT_MAX) || (- INT_MAX - 1 =? INT_MAX)) with true by (unfold INT_MAX; lia).
+    cbn [andb negb]. reflexivity. }
+  split; [exact H|]. rewrite H. reflexivity.
+Qed.
+
+(* the whole domain except the subnormals *)
+Theorem real_roundtrip_partial d : in64 d -> ~ subnormal d ->
+  REAL2double (double2REAL d) = if is_nan d then RNaN else ROk d.
+Proof.
+  intros Hd Hns.
+  destruct (d_fields d Hd) as (Hs & He & Hf & Hmk).
+  destruct real_roundtrip_specials as (Z0 & Z1 & I0 & I1 & _).
+  destruct (Z.eq_dec (d_exp d) 2047) as [E2047|NE2047].
+  - destruct (Z.eq_dec (d_frac d) 0) as [F0|NF0].
+    + replace (is_nan d) with false by (unfold is_nan; lia).
+      rewrite Hmk, E2047, F0.
+      assert (Hs2 : d_sign d = 0 \/ d_sign d = 1) by lia.
+      destruct Hs2 as [-> | ->]; assumption.
+    + assert (Hn : is_nan d = true) by (unfold is_nan; lia).
+      rewrite Hn. exact (proj2 (real_roundtrip_nan d Hd Hn)).
+  - replace (is_nan d) with false by (unfold is_nan; lia).
+    destruct (Z.eq_dec (d_exp d) 0) as [E0|NE0].
+    + assert (F0 : d_frac d = 0).
+      { destruct (Z.eq_dec (d_frac d) 0); [assumption|]. exfalso. apply Hns. repeat split; auto; apply Hd. }
+      rewrite Hmk, E0, F0.
+      assert (Hs2 : d_sign d = 0 \/ d_sign d = 1) by lia.
+      destruct Hs2 as [-> | ->]; assumption.
+    + apply real_roundtrip_normal. split; [exact Hd|lia].
+Qed.
+
+(* (d) the full statement is false: 2^-1023 is stored as 81 fc 00 03 and comes
+   back as 1.5 * 2^-1023 *)
+Definition subnormal_witness : Z := 2251799813685248.   (* 0x0008000000000000 *)
+Theorem real_roundtrip_refuted :
+  exists d, in64 d /\ is_nan d = false /\ subnormal d /\
+            double2REAL d = [129; 252; 0; 3] /\
+            REAL2double (double2REAL d) = ROk 3377699720527872 /\
+            REAL2double (double2REAL d) <> ROk d.
+Proof.
+  exists subnormal_witness. vm_compute.
+  repeat split; try reflexivity; try discriminate.
 Qed.
